@@ -101,11 +101,12 @@ Definition variant_end (v45 : bool) (r : span_in) : res N :=
     | Panic => Panic
     end.
 
-(* Record::variant_span: usize::from(end) - usize::from(start) + 1 -- the subtraction overflows
-   (a panic in a build with overflow checks) when INFO END lies before POS *)
+(* Record::variant_span: usize::from(end).checked_sub(usize::from(start)).map(|n| n + 1), an
+   InvalidData error when INFO END lies before POS (end <= usize::MAX and start >= 1, so n + 1
+   cannot overflow) *)
 Definition variant_span (v45 : bool) (r : span_in) : res N :=
   match variant_end v45 r with
-  | Ok e => if e <? start_of r then Panic else Ok (e - start_of r + 1)
+  | Ok e => if e <? start_of r then Err InvalidData else Ok (e - start_of r + 1)
   | Err x => Err x
   | Panic => Panic
   end.
